@@ -21,6 +21,9 @@ func init() {
 			{"C18.R3b", "q", "every file of the range is visited", c18r3b},
 			{"C18.R4", "q", "truncate on all exits and before destination switch", c18r4},
 			{"C18.R5", "q", "earlier file appended to, never overwritten", c18r5},
+			{"C18.R6", "q", "hint files of a chunk removed by glob", c18r6},
+			{"C02.R8", "q", "shared: rebuild indexes every scanned record (tombstones)", c02r8},
+			{"C03.R4", "q", "shared: tree dump removed before any GC pass", c03r4},
 		},
 	})
 }
